@@ -1070,3 +1070,177 @@ func ruleR18_5(r *Run) {
 		r.note("R18.5: only %d block-size/coordinate operations found", n)
 	}
 }
+
+// ---------------------------------------------------------------------------------------------
+// R18.6 / R17.3 axis lints: component triples and stride products
+
+func init() {
+	register(ruleDef{ID: "R18.6", Prop: "C18", Tier: "quick", Floor: 20,
+		Title: "axis bookkeeping: where the three components of one size/coordinate object are read on one line, they are three different axes; a stride product never contains the same axis of the same size object twice",
+		Fn:    ruleR18_6})
+	register(ruleDef{ID: "R17.3", Prop: "C17", Tier: "quick", Floor: 20,
+		Title: "axis bookkeeping (shared with R18.6): block and volume strides multiply the sizes of different axes, and per-axis block counts are read from three different axes",
+		Fn:    ruleR18_6})
+}
+
+// axisLeaf: the value is component k of some object (method Value(k) or constant index); returns a
+// key for the object and the axis.
+func axisLeaf(v ssa.Value) (string, int, bool) {
+	v = stripConv(v)
+	switch x := v.(type) {
+	case *ssa.Call:
+		if x.Call.IsInvoke() && x.Call.Method.Name() == "Value" && len(x.Call.Args) == 1 {
+			if k, ok := constInt(x.Call.Args[0]); ok {
+				return placeKey(x.Call.Value), int(k), true
+			}
+		}
+		if callee := x.Call.StaticCallee(); callee != nil && callee.Name() == "Value" && len(x.Call.Args) == 2 {
+			if k, ok := constInt(x.Call.Args[1]); ok {
+				return placeKey(x.Call.Args[0]), int(k), true
+			}
+		}
+	case *ssa.UnOp:
+		if x.Op == token.MUL {
+			if ia, ok := x.X.(*ssa.IndexAddr); ok {
+				if k, ok := constInt(ia.Index); ok {
+					if n := namedOf(derefType(ia.X.Type())); n != nil {
+						switch n.Obj().Name() {
+						case "Point3d", "ChunkPoint3d", "IndexZYX":
+							return addrKey(ia.X), int(k), true
+						}
+					}
+				}
+			}
+		}
+	case *ssa.Index:
+		if k, ok := constInt(x.Index); ok {
+			if n := namedOf(x.X.Type()); n != nil {
+				switch n.Obj().Name() {
+				case "Point3d", "ChunkPoint3d", "IndexZYX":
+					return placeKey(x.X), int(k), true
+				}
+			}
+		}
+	}
+	return "", 0, false
+}
+
+func derefType(t types.Type) types.Type {
+	if p, ok := t.(*types.Pointer); ok {
+		return p.Elem()
+	}
+	return t
+}
+
+func ruleR18_6(r *Run) {
+	w := r.W
+	nLines, nProds := 0, 0
+	for _, f := range w.RepoFuncs {
+		p := relPkg(pkgPathOf(f))
+		if !(strings.HasPrefix(p, "datatype/") || p == "dvid") || len(f.Blocks) == 0 || strings.HasSuffix(w.fposFile(f), "_test.go") {
+			continue
+		}
+		// (a) component triples on one line
+		type key struct {
+			line int
+			obj  string
+		}
+		byLine := map[key][]int{}
+		posOf := map[key]token.Pos{}
+		for _, b := range f.Blocks {
+			for _, in := range b.Instrs {
+				v, ok := in.(ssa.Value)
+				if !ok {
+					continue
+				}
+				if _, isCall := in.(*ssa.Call); !isCall {
+					continue
+				}
+				obj, ax, ok := axisLeaf(v)
+				if !ok || !in.Pos().IsValid() {
+					continue
+				}
+				k := key{w.Fset.Position(in.Pos()).Line, obj}
+				byLine[k] = append(byLine[k], ax)
+				posOf[k] = in.Pos()
+			}
+		}
+		var keys []key
+		for k := range byLine {
+			keys = append(keys, k)
+		}
+		sort.Slice(keys, func(i, j int) bool { return keys[i].line < keys[j].line })
+		kidx := 0
+		for _, k := range keys {
+			axes := byLine[k]
+			if len(axes) != 3 {
+				continue
+			}
+			nLines++
+			kidx++
+			seen := map[int]bool{}
+			for _, a := range axes {
+				seen[a] = true
+			}
+			r.check(len(seen) == 3, fmt.Sprintf("%s:component-triple#%d", fname(f), kidx), "three components of one object read on one line are three different axes",
+				fmt.Sprintf("three components of one size/coordinate object are read on one line but only %d different axes are used (%v): one axis is counted twice and another ignored", len(seen), axes), w.pos(posOf[k]))
+		}
+		// (b) stride products
+		isMulOperand := map[ssa.Value]bool{}
+		for _, b := range f.Blocks {
+			for _, in := range b.Instrs {
+				if bo, ok := in.(*ssa.BinOp); ok && bo.Op == token.MUL {
+					isMulOperand[stripConv(bo.X)] = true
+					isMulOperand[stripConv(bo.Y)] = true
+				}
+			}
+		}
+		pidx := 0
+		for _, b := range f.Blocks {
+			for _, in := range b.Instrs {
+				bo, ok := in.(*ssa.BinOp)
+				if !ok || bo.Op != token.MUL || isMulOperand[bo] {
+					continue
+				}
+				// flatten
+				type leaf struct {
+					obj string
+					ax  int
+				}
+				var leaves []leaf
+				var walk func(v ssa.Value, d int)
+				walk = func(v ssa.Value, d int) {
+					if d > 6 {
+						return
+					}
+					v = stripConv(v)
+					if m, ok := v.(*ssa.BinOp); ok && m.Op == token.MUL {
+						walk(m.X, d+1)
+						walk(m.Y, d+1)
+						return
+					}
+					if obj, ax, ok := axisLeaf(v); ok {
+						leaves = append(leaves, leaf{obj, ax})
+					}
+				}
+				walk(bo, 0)
+				if len(leaves) < 2 {
+					continue
+				}
+				nProds++
+				pidx++
+				dup := false
+				seen := map[leaf]bool{}
+				for _, l := range leaves {
+					if seen[l] {
+						dup = true
+					}
+					seen[l] = true
+				}
+				r.check(!dup, fmt.Sprintf("%s:stride-product#%d", fname(f), pidx), "the product multiplies components of different axes",
+					"a product of size components contains the same axis of the same object twice (a stride computed as X·X instead of X·Y): correct only for cubic sizes", w.pos(bo.Pos()))
+			}
+		}
+	}
+	r.check(nLines+nProds >= 20, "repo:axis-bookkeeping-sites", fmt.Sprintf("%d component triples and %d stride products examined", nLines, nProds), "too few sites: rule needs review", "-")
+}
